@@ -33,8 +33,10 @@ stated by the property (grid axes followed by symmetric axes; ``REF`` below, har
 * ``commute``    conversion to a Cartesian grid commutes with divergence / gradient: both legs
                  (operate then convert, convert then operate) are compared with the continuum
                  object on a refinement pair N -> 2N of the curvilinear grid at a fixed Cartesian
-                 target; the error must shrink ~quadratically (accepted: factor >= 3, i.e. observed
-                 order >= 1.58; a wrong component assignment gives an O(1) error that does not shrink)
+                 target; the error must shrink ~quadratically: "operate then convert" by a factor
+                 >= 3 (theory 4, observed 3.5-4.1), "convert then operate" must stay below the
+                 rigorous interpolation-error envelope, which is proportional to h^2 (see
+                 ``_c_commute``); a wrong component assignment is an O(1) error that does not shrink
 
 Known finding D7 (see DESIGN.md section 3): on ``CylindricalSymGrid`` ``_vector_to_cartesian``
 contracts the components with the rows of ``basis_rotation`` in coordinate-system order
@@ -374,7 +376,7 @@ def basis_batch(case):
     from pde.grids.coordinates import DimensionError
 
     sysname, param = case["sys"], case.get("param")
-    c, kind = _coordsys(sysname, param)
+    c, _ = _coordsys(sysname, param)
     cname = type(c).__name__ + (f"({c.dim})" if sysname.startswith("cartesian") else "")
     P = np.array(case["points"], float)
     if case.get("shape2d"):
@@ -1479,7 +1481,9 @@ def main(run):
     run.notes["tolerances"] = {
         "exact relations": TOL_EXACT,
         "finite-difference oracles": "10 x (|D_2h - D_h|/3 + eps*scale/h^k), h = 1e-5 (jacobian), 1e-4 (first), 1e-3 (second derivatives)",
-        "commutation": "error against the continuum must shrink by >= 3 from N to 2N (theory: 4) or be <= 1e-9 x scale",
+        "commutation": "operate-then-convert: error against the continuum shrinks by >= 3 from N to 2N (theory 4); "
+        "convert-then-operate: error <= (sum_c (h_r^2/8 max|f_rr| + h_z^2/8 max|f_zz|)) * sum_k 1/H_k (divergence) or "
+        "<= eps(s)/min H_k (gradient) at N and at 2N; floor 1e-9 x scale",
     }
     run.assumptions += [
         "reference component order = grid axes followed by symmetric axes, hard-coded in the check: "
